@@ -140,3 +140,22 @@ Proof.
   - intros H; injection H as <-. cbn. intros H; injection H as <-. left; reflexivity.
   - intros H; injection H as <-. intros Hc. right. eauto.
 Qed.
+
+(* A data record whose causal length is above the local one (and not 1) resurrects the row:
+   the model -- as the real extension, checked by the crdtsim layer of C01 on the clock rows'
+   site/db_version/seq -- stamps BOTH the sentinel it creates and the column clock with the
+   position (site, db_version, seq) of that one record. *)
+Lemma resurrect_two_records_one_position d r :
+  r_sent r = false -> Z.odd (r_cl r) = true -> r_cl r <> 1 ->
+  local_cl (dget (r_row r) d) < r_cl r ->
+  exists c, dget (r_row r) (merge d r) = Some (mkRow (r_cl r) (Some (rclk r)) (Some c)) /\
+            c_clk c = rclk r /\ c_val c = r_val r /\ c_colv c = r_colv r.
+Proof.
+  intros Hs Ho H1 Hl. unfold merge.
+  assert (Z.even (r_cl r) = false) as He by (rewrite <- Z.negb_odd, Ho; reflexivity).
+  destruct (r_cl r <? local_cl (dget (r_row r) d)) eqn:E1; [apply Z.ltb_lt in E1; lia|].
+  rewrite He, Hs.
+  destruct (local_cl (dget (r_row r) d) <? r_cl r) eqn:E2; [|apply Z.ltb_ge in E2; lia].
+  destruct (r_cl r =? 1) eqn:E3; [apply Z.eqb_eq in E3; contradiction|].
+  rewrite dget_dset_same. eexists. split; [reflexivity|]. cbn. auto.
+Qed.
